@@ -33,6 +33,11 @@ pub struct Trace {
     /// each) to the re-emitted stream - a decompression bomb behind an honest table directory.
     #[serde(default, skip_serializing_if = "is_zero_u32")]
     pub woff2_tail_blocks: u32,
+    /// With `woff2_tail_blocks`: the table directory claims the extra bytes for its last table
+    /// (the stream is then exactly as long as the directory says, and only the plausibility of
+    /// the claim stands between the file and the allocation).
+    #[serde(default, skip_serializing_if = "std::ops::Not::not")]
+    pub woff2_tail_claimed: bool,
     /// With `rewrap_woff2`: attach an extended-metadata block that consists of this many
     /// run-length meta-blocks (header metaOffset / metaLength / metaOrigLength set to match).
     #[serde(default, skip_serializing_if = "is_zero_u32")]
